@@ -31,6 +31,8 @@ U5 a change leaves its loop iteration early only through the is_ignored test, an
 performs a remote operation (upload_* / delete_remote* / rename_remote / make_remote*).
 U6 cmd_upload.run calls upload_full_tree() (which deletes nothing) only under the user's `full` option and never
 reassigns it.
+U7 (third round) is_ignored decides on whole path components: glob.match on the path and on its os.path.dirname ancestors; no
+   startswith/find/`in` test of one path string against another without a trailing separator.
 Does not decide: equality of the remote directory with the tree (values), the full-upload path, remote transport semantics.
 """
 CATS = ["removed", "renamed", "kind_changed", "added", "modified"]
@@ -166,7 +168,23 @@ def run(ctx):
     guarded = [i for i in ast.walk(fr) if isinstance(i, ast.If) and norm(i.test) == "full" and any(call_attr(c) == "upload_full_tree" for s_ in i.body for c in calls_in(s_))]
     ctx.check("U6-full-upload-only-on-request", wr_, "full" in [a.arg for a in fr.args.args] and not reass and len(fcalls) == 1 and len(guarded) == 1, "upload_full_tree() runs only under the user's `full` option, which run() never reassigns", construct="; ".join(reass) or str([norm(c) for c in fcalls]), message=f"cmd_upload.run switches to a full upload by itself ({reass}): a full upload deletes nothing, so paths that exist only in the previously uploaded revision stay on the remote while the marker advances — later incremental uploads never remove them")
 
+    # ---- U7: the ignore decision is taken on whole path components -------------------------------------------------
+    fi = repo.func(UP, f"{U}.is_ignored")
+    wi = f"{UP}:{U}.is_ignored"
+    loose = []
+    for c in calls_in(fi):
+        if call_attr(c) in ("startswith", "endswith", "find", "index", "count") and c.args:
+            a0 = c.args[0]
+            sep_aware = (isinstance(a0, ast.Constant) and isinstance(a0.value, str) and a0.value.endswith("/")) or (isinstance(a0, ast.BinOp) and isinstance(a0.op, ast.Add) and isinstance(a0.right, ast.Constant) and a0.right.value == "/") or (isinstance(a0, ast.JoinedStr) and a0.values and isinstance(a0.values[-1], ast.Constant) and str(a0.values[-1].value).endswith("/"))
+            if not sep_aware:
+                loose.append(f"L{c.lineno}:{norm(c)[:60]}")
+    for n in walk_own(fi):
+        if isinstance(n, ast.Compare) and any(isinstance(o, (ast.In, ast.NotIn)) for o in n.ops) and isinstance(n.left, ast.Name) and all(isinstance(cm, ast.Name) for cm in n.comparators) and any(cm.id in ("relpath", "path", "dir") for cm in n.comparators):
+            loose.append(f"L{n.lineno}:{norm(n)[:60]}")
+    ctx.check("U7-ignore-on-whole-components", wi, any(call_attr(c) == "match" for c in calls_in(fi)) and any(call_attr(c) == "dirname" for c in calls_in(fi)) and not loose, "is_ignored matches the path and its dirname() ancestors against the patterns; no string-prefix test without a path separator", construct="; ".join(loose), message=f"is_ignored decides with a plain string prefix/substring test ({'; '.join(loose)}): a path that merely shares a name prefix with an ignored directory (cache-control/x beside an ignored cache) counts as ignored and is silently not uploaded, refreshed or deleted while the marker advances")
+
 MUTANTS = [
+    Mutant("ignored-directory shortcut by string prefix", UP, "        glob = self._get_ignored()\n        ignored = glob.match(relpath)\n", "        glob = self._get_ignored()\n        if any(relpath.startswith(d_) for d_ in getattr(self, '_seen_ignored', ())):\n            return True\n        ignored = glob.match(relpath)\n", expect="U7-ignore-on-whole-components"),
     Mutant("removed file kept when a file is added at the same path", UP, "                if change.kind[0] == \"file\":\n                    self.delete_remote_file(change.path[0])\n                elif change.kind[0] == \"directory\":\n                    self.delete_remote_dir_maybe(change.path[0])\n", "                if change.kind[0] == \"file\":\n                    if change.path[0] in {c.path[1] for c in changes.added}:\n                        continue\n                    self.delete_remote_file(change.path[0])\n                elif change.kind[0] == \"directory\":\n                    self.delete_remote_dir_maybe(change.path[0])\n", expect="U5-no-change-skipped"),
     Mutant("diverged overwrite silently becomes a full upload", UP, "            if full:\n                uploader.upload_full_tree()\n", "            if overwrite:\n                full = True\n            if full:\n                uploader.upload_full_tree()\n", expect="U6-full-upload-only-on-request"),
     Mutant("empty removed directories always deferred", UP, "        try:\n            self._up_rmdir(relpath)\n        # any kind of PathError would be OK, though we normally expect\n        # DirectoryNotEmpty\n        except transport_errors.PathError:\n            self._pending_deletions.append(relpath)\n", "        self._pending_deletions.append(relpath)\n", expect="U3-deferred-dir-deletion"),
